@@ -51,6 +51,10 @@ pub trait Prop {
     fn max_shrink_iters(&self) -> u32 {
         1500
     }
+    /// wall-clock budget for shrinking one failure
+    fn shrink_budget_s(&self) -> u64 {
+        40
+    }
     fn strategy(&self, ctx: &Ctx) -> BoxedStrategy<Self::Case>;
     fn check(&self, ctx: &Ctx, case: &Self::Case, ev: &mut Ev) -> Result<(), Fail>;
     /// deterministic enumerations (exhaustive sub-spaces, golden tables); shard-aware through ctx.owns
@@ -216,7 +220,16 @@ impl<P: Prop> DynProp for P {
             let strat = self.strategy(ctx);
             let first_fail: RefCell<Option<Fail>> = RefCell::new(None);
             let last_fail: RefCell<Option<Fail>> = RefCell::new(None);
+            let shrink_started: std::cell::Cell<Option<Instant>> = std::cell::Cell::new(None);
+            let shrink_budget = Duration::from_secs(self.shrink_budget_s());
             let result = runner.run(&strat, |case| {
+                // shrinking re-executes the case; with process-level cases (timeouts!) that must stay bounded:
+                // once the budget is used up every further candidate counts as passing, which ends the shrink
+                if let Some(t) = shrink_started.get() {
+                    if t.elapsed() > shrink_budget {
+                        return Ok(());
+                    }
+                }
                 write_inflight(&case);
                 let mut e = ev.borrow_mut();
                 match checked_with_guard(self, ctx, &case, &mut e) {
@@ -242,6 +255,9 @@ impl<P: Prop> DynProp for P {
                             None => *first_fail.borrow_mut() = Some(fail.clone()),
                         }
                         e.frozen = true;
+                        if shrink_started.get().is_none() {
+                            shrink_started.set(Some(Instant::now()));
+                        }
                         *last_fail.borrow_mut() = Some(fail.clone());
                         Err(TestCaseError::fail(fail.signature.clone()))
                     }
